@@ -34,13 +34,16 @@ struct Net {
     log: Log,
     a: Node,
     b: Node,
-    ab: Proxy,
-    ba: Proxy,
+    ab: Option<Proxy>,
+    ba: Option<Proxy>,
 }
 
 impl Net {
     /// stream name of the connection A's protocols treat as primary ("ab0" / "ba0")
     fn primary(&self) -> Option<String> {
+        if self.ab.is_none() {
+            return Some("q0".to_string());
+        }
         self.log.with(|l| l.iter().find(|v| is(v, "p_est") && v["n"] == "A" && v["q"] == "q1").map(|v| if v["dir"] == "out" { "ab0".to_string() } else { "ba0".to_string() }))
     }
 
@@ -107,14 +110,22 @@ async fn run_net(sc: &Value) -> (Vec<Value>, f64, Option<String>) {
         ca.identify = true;
         cb.identify = true;
     }
-    // tcp or ws (both run through the byte proxy that observes which side ended the stream)
+    // tcp / ws run through the byte proxy that observes which side ended the stream; quic runs without
+    // proxy: the close is observed at the remote node B (its ConnectionClosed event) - only A's idle
+    // mechanism can end the connection (B's keep-alive is 120 s, quinn's idle timeout 60 s, no faults)
     let transport = sc["transport"].as_str().unwrap_or("tcp").to_string();
+    let quic = transport == "quic";
+    ca.quic_idle = Duration::from_secs(60);
+    cb.quic_idle = Duration::from_secs(60);
     ca.transport = transport.clone();
     cb.transport = transport.clone();
     let a = Node::start(&ca, log.clone());
     let b = Node::start(&cb, log.clone());
-    let ab = Proxy::start("ab", b.listen, log.clone()).await;
-    let ba = Proxy::start("ba", a.listen, log.clone()).await;
+    let (ab, ba) = if quic {
+        (None, None)
+    } else {
+        (Some(Proxy::start("ab", b.listen, log.clone()).await), Some(Proxy::start("ba", a.listen, log.clone()).await))
+    };
     let net = Net { log: log.clone(), a, b, ab, ba };
     let mut ids: HashMap<u64, (bool, usize)> = HashMap::new();
     let mut why = None;
@@ -122,7 +133,7 @@ async fn run_net(sc: &Value) -> (Vec<Value>, f64, Option<String>) {
     'run: {
         // ---- establish
         let t0 = before(&log);
-        let (addr_ab, addr_ba) = (Node::addr_via(&transport, net.ab.listen, net.b.peer), Node::addr_via(&transport, net.ba.listen, net.a.peer));
+        let (addr_ab, addr_ba) = (Node::addr_via(&transport, net.ab.as_ref().map(|p| p.listen).unwrap_or(net.b.listen), net.b.peer), Node::addr_via(&transport, net.ba.as_ref().map(|p| p.listen).unwrap_or(net.a.listen), net.a.peer));
         if double {
             let (r1, r2) = tokio::join!(net.a.dial_address(addr_ab), net.b.dial_address(addr_ba));
             if r1.is_err() || r2.is_err() {
@@ -154,7 +165,7 @@ async fn run_net(sc: &Value) -> (Vec<Value>, f64, Option<String>) {
             break 'run;
         }
         for e in &ests {
-            let s = if e["dir"] == "out" { "ab0" } else { "ba0" };
+            let s = if quic { "q0" } else if e["dir"] == "out" { "ab0" } else { "ba0" };
             log.push(json!({"e": "est", "s": s, "t0": t0, "t1": e["t"], "role": "?"}));
         }
         let Some(prim) = net.primary() else {
@@ -188,11 +199,15 @@ async fn run_net(sc: &Value) -> (Vec<Value>, f64, Option<String>) {
         let hold_forever = !ids.is_empty();
         let wait_ms = if hold_forever { sc["hold_watch_ms"].as_u64().unwrap_or(3 * t_ms) } else { t_ms + slack + 400 };
         let t_end = log.now_ms() + wait_ms as f64;
-        while log.now_ms() < t_end && !(net.ab.all_dead() && net.ba.all_dead()) {
+        let gone = |net: &Net| match (&net.ab, &net.ba) {
+            (Some(x), Some(y)) => x.all_dead() && y.all_dead(),
+            _ => net.log.with(|l| l.iter().any(|v| is(v, "app_closed") && v["n"] == "B")),
+        };
+        while log.now_ms() < t_end && !gone(&net) {
             tokio::time::sleep(Duration::from_millis(5)).await;
         }
         tokio::time::sleep(Duration::from_millis(30)).await;
-        for s in ["ab0", "ba0"] {
+        for s in ["ab0", "ba0", "q0"] {
             log.push(json!({"e": "check", "s": s, "t": before(&log)}));
         }
         // what happens during tear-down is not part of the execution
@@ -259,6 +274,15 @@ fn main() {
         for v in ls {
             events += 1;
             let mut v = v;
+            if sc["transport"] == "quic" && is(&v, "app_closed") && v["n"] == "B" {
+                // the remote learnt that the QUIC connection ended (stamped after, like the proxy's notice)
+                let mut t = v["t"].as_u64().unwrap();
+                if fault == "early_close" {
+                    t = t.saturating_sub(2 * t_ms);
+                }
+                *closes.entry("self".to_string()).or_default() += 1;
+                lines.push(json!({"e": "closed", "s": "q0", "t": t, "by": "self"}).to_string());
+            }
             if is(&v, "px_dead") {
                 // who ended the TCP stream: A is the dialer on `ab` (side a) and the listener on `ba` (side b)
                 let s = format!("{}{}", v["px"].as_str().unwrap(), v["s"]);
